@@ -129,7 +129,12 @@ loop:
 			}
 			deploymentCounter.WithLabelValues("reserve-hostnames", "success").Inc()
 			defer dm.hostnameService.ReleaseHostnames(allHostnames)
-			runch = dm.startDeploy()
+			if dm.state == dsTeardownPending {
+				// teardown was requested while the hostnames were being reserved: do not deploy
+				runch = dm.startTeardown()
+			} else {
+				runch = dm.startDeploy()
+			}
 
 		case shutdownErr = <-dm.lc.ShutdownRequest():
 			break loop
